@@ -343,6 +343,7 @@ def run(ctx, only_scripts=None):
         e2e_runs += fam_e2e.many_reconnects_run(ctx, binp)
         if tier == "thorough":
             e2e_runs += fam_e2e.c17_periodic_run(ctx, binp)      # the daemon's own one-minute test recording (75 s of real time)
+            e2e_runs += fam_e2e.c17_window_triggers_run(ctx, binp)   # ... and its 'power on' / 'end of window' ones (up to 160 s)
         for v in fam_e2e.judge_c11(ctx, e2e_runs, binp):
             if v["key"].startswith("C11:e2e-"):
                 continue
